@@ -21,9 +21,12 @@ import (
 	"github.com/nspcc-dev/neo-go/pkg/core/block"
 	"github.com/nspcc-dev/neo-go/pkg/core/native/nativehashes"
 	"github.com/nspcc-dev/neo-go/pkg/core/native/noderoles"
+	"github.com/nspcc-dev/neo-go/pkg/core/state"
 	"github.com/nspcc-dev/neo-go/pkg/core/transaction"
 	"github.com/nspcc-dev/neo-go/pkg/smartcontract/trigger"
 	"github.com/nspcc-dev/neo-go/pkg/util"
+	"github.com/nspcc-dev/neo-go/pkg/vm/stackitem"
+	"github.com/nspcc-dev/neo-go/pkg/vm/vmstate"
 
 	"verif/harness/internal/chainx"
 	"verif/harness/internal/hx"
@@ -51,6 +54,13 @@ type caseRun struct {
 	csize   int
 	desc    string
 	gcSleep bool
+	// shadow of the NEO cache's votesChanged flag on A and B (from the NEO events of HALTed transactions),
+	// used only to decide whether a divergence has the shape of the known finding
+	vcA, vcB   bool
+	pendingBlk bool // a candidate's account was (un)blocked since A last recomputed the committee
+	knownShape bool
+	gov     bool // governance-focused profile: elected committee, quiet epochs, block/unblock of candidates
+	lastCmt string
 }
 
 func main() {
@@ -115,8 +125,15 @@ func (c *caseRun) run() {
 	if thorough {
 		nblocks = 30 + r.Intn(120)
 	}
+	c.gov = r.Chance(1, 2)
 	if script != nil {
 		csize, vcount, extra, srInHeader, nblocks = script.csize, script.vcount, script.extra, false, script.blocks
+		c.gov = false
+	}
+	if c.gov {
+		o.Count("profile:governance")
+	} else {
+		o.Count("profile:mixed")
 	}
 	c.csize = csize
 	c.net = chainx.NewNet(r, csize, vcount, extra)
@@ -205,8 +222,29 @@ func (c *caseRun) run() {
 			ops = script.gen(c, h)
 		case h == 1:
 			ops = c.setupOps()
+		case c.gov && h == 2:
+			for i := 0; i < w.nkeys; i++ {
+				if r.Chance(4, 5) {
+					if p := w.opRegister(i, false, false); p != nil {
+						ops = append(ops, p)
+					}
+				}
+			}
+		case c.gov && h == 3:
+			reg := w.registeredKeys()
+			for i := 0; i < w.nkeys && len(reg) > 0; i++ {
+				if w.neoBalance(c.net.Account(i)) > 0 && r.Chance(4, 5) {
+					if p := w.opVote(i, reg[r.Intn(len(reg))], false); p != nil {
+						ops = append(ops, p)
+					}
+				}
+			}
 		default:
-			ntx := r.Weighted([]int{30, 30, 22, 12, 6})
+			ntxW := []int{30, 30, 22, 12, 6}
+			if c.gov {
+				ntxW = []int{55, 30, 10, 4, 1}
+			}
+			ntx := r.Weighted(ntxW)
 			for i := 0; i < ntx; i++ {
 				if p := c.genOp(); p != nil {
 					ops = append(ops, p)
@@ -231,6 +269,7 @@ func (c *caseRun) run() {
 				return
 			}
 			rec.restartB = true
+			c.noteRestart(h)
 			restarts++
 			o.Count("B.restarts")
 			o.Line("restartB", "ok")
@@ -258,6 +297,9 @@ func (c *caseRun) run() {
 			panic(err)
 		}
 		o.Count("blocks")
+		if int(h)%csize == 0 { // NEO.OnPersist of the first block of an epoch
+			c.vcA, c.vcB = false, false
+		}
 		// results of the transactions (from A) and op lines
 		for _, p := range ops {
 			aers, err := c.a.BC.GetAppExecResults(p.tx.Hash(), trigger.Application)
@@ -277,6 +319,24 @@ func (c *caseRun) run() {
 			}
 			o.Line(line, obs)
 			c.afterOp(p, &aers[0])
+			if neoVotesEvent(&aers[0]) {
+				c.vcA, c.vcB = true, true
+			}
+			if p.blkCand && p.result == "halt true" {
+				c.pendingBlk = true
+				o.Count("candidate-account-(un)blocked")
+			}
+		}
+		if rec.epochLast { // NEO.PostPersist of the last block of an epoch
+			if c.vcA {
+				c.pendingBlk = false
+				o.Count("A.epoch-end-recompute")
+			} else {
+				o.Count("A.epoch-end-no-recompute")
+				if c.vcB && c.pendingBlk {
+					c.knownShape = true
+				}
+			}
 		}
 		c.recs = append(c.recs, rec)
 		sig = append(sig, opKinds(ops))
@@ -298,12 +358,19 @@ func (c *caseRun) run() {
 			}
 		}
 		o.Line("endblock", abstractObs(w, c.a.BC)+" | "+abstractObs(w, c.b.BC))
+		if cm := oa[2].val; cm != c.lastCmt {
+			if c.lastCmt != "" {
+				o.Count("A.committee-changes")
+			}
+			c.lastCmt = cm
+		}
 	}
 	// ---- final: restart B once more and compare again (clean shutdown at the last height)
 	if err := c.b.Restart(); err != nil {
 		o.Fail("restart-failed", c.k, "B cannot restart at the end: %v [%s]", err, c.desc)
 		return
 	}
+	c.noteRestart(uint32(nblocks) + 1)
 	o.Line("restartB", "ok")
 	oa, ob := observe(w, c.a.BC, nil), observe(w, c.b.BC, nil)
 	for i := range oa {
@@ -320,6 +387,38 @@ func (c *caseRun) run() {
 	}
 }
 
+// noteRestart: B is restarted before block h (at height h-1). InitializeCache sets votesChanged and, when
+// h is the first block of an epoch, recomputes the next committee from storage.
+func (c *caseRun) noteRestart(h uint32) {
+	c.vcB = true
+	if int(h)%c.csize == 0 && !c.vcA && c.pendingBlk {
+		c.knownShape = true
+	}
+}
+
+// neoVotesEvent: did the transaction emit a NEO event that goes with votesChanged=true?
+func neoVotesEvent(aer *state.AppExecResult) bool {
+	if aer.VMState != vmstate.Halt {
+		return false
+	}
+	for _, e := range aer.Events {
+		if e.ScriptHash != nativehashes.NeoToken {
+			continue
+		}
+		switch e.Name {
+		case "Vote", "CandidateStateChanged":
+			return true
+		case "Transfer":
+			f := e.Item.Value().([]stackitem.Item)
+			amt, _ := f[2].TryInteger()
+			if amt != nil && amt.Sign() > 0 && !f[0].Equals(f[1]) {
+				return true
+			}
+		}
+	}
+	return false
+}
+
 func opKinds(ops []*op) string {
 	ks := make([]string, len(ops))
 	for i, p := range ops {
@@ -329,7 +428,7 @@ func opKinds(ops []*op) string {
 }
 
 // afterOp updates the generator's bookkeeping from the real result.
-func (c *caseRun) afterOp(p *op, aerHalt interface{ }) {
+func (c *caseRun) afterOp(p *op, _ *state.AppExecResult) {
 	w := c.w
 	for i, s := range w.slots {
 		if s.kv == nil {
@@ -367,44 +466,10 @@ func (c *caseRun) epochStart(h uint32) uint32 { return h - h%uint32(c.csize) }
 // diverged reports a divergence of the two replicas at height h.
 func (c *caseRun) diverged(h uint32, name, va, vb string) {
 	cls := classOf(name)
-	// Shape 1 (known finding): a Policy block/unblock of a registered candidate's own account in an epoch
-	// with no vote-changing operation at all (so the never-restarted node does not recompute the
-	// committee at the end of that epoch), and B restarted at or after the start of that epoch.
-	known := false
-	if cls == "committee" || cls == "root" || cls == "storage" || cls == "aer" || cls == "balances" || cls == "invoke-getters" || cls == "enrollments" {
-		for _, rec := range c.recs {
-			blk := false
-			for _, p := range rec.ops {
-				if p.blkCand && p.result == "halt true" {
-					blk = true
-				}
-			}
-			if !blk {
-				continue
-			}
-			es := c.epochStart(rec.h)
-			ee := es + uint32(c.csize) - 1
-			votes, restarted := false, false
-			for _, r2 := range c.recs {
-				if r2.h >= es && r2.h <= ee {
-					for _, p := range r2.ops {
-						if p.votes && strings.HasPrefix(p.result, "halt") && !(p.blkCand) && p.kind != "policy.block" {
-							votes = true
-						}
-						if p.kind == "policy.block" && !p.blkCand && p.result == "halt true" {
-							votes = true // may have revoked a voter's votes
-						}
-					}
-				}
-				if r2.h > es && r2.restartB {
-					restarted = true
-				}
-			}
-			if !votes && restarted && h >= ee {
-				known = true
-			}
-		}
-	}
+	// Shape of the known finding (DESIGN §6 item 13): at the end of some epoch replica A did not recompute the
+	// next committee (no vote-changing NEO event in the epoch) while B did (it had been restarted), and a
+	// registered candidate's own account was blocked/unblocked since A's last recomputation.
+	known := c.knownShape && (cls == "committee" || cls == "root" || cls == "storage" || cls == "aer" || cls == "balances" || cls == "invoke-getters" || cls == "enrollments" || cls == "addblock")
 	key := ""
 	if known {
 		key = "neo-committee-blocked-candidate-restart"
@@ -487,7 +552,11 @@ func (c *caseRun) setupOps() []*op {
 	left := int64(100_000_000)
 	for i := 0; i < w.nkeys && left > 0; i++ {
 		var amt int64
-		switch r.Intn(4) {
+		sel := r.Intn(4)
+		if c.gov && i >= w.nkeys-2 {
+			sel = 0 // the spare keys are whales: turnout is effective once they vote
+		}
+		switch sel {
 		case 0:
 			amt = int64(5_000_000 + r.Intn(30_000_000))
 		case 1:
@@ -512,7 +581,11 @@ func (c *caseRun) genOp() *op {
 	w, r := c.w, c.r
 	nk := w.nkeys
 	reg := w.registeredKeys()
-	switch r.Weighted([]int{14, 4, 14, 8, 3, 6, 8, 4, 3, 3, 3, 8, 2, 1, 3, 1}) {
+	weights := []int{14, 4, 14, 8, 3, 6, 8, 4, 3, 3, 3, 8, 2, 1, 3, 1}
+	if c.gov {
+		weights = []int{3, 2, 5, 3, 2, 5, 16, 9, 1, 2, 1, 3, 1, 1, 1, 1}
+	}
+	switch r.Weighted(weights) {
 	case 0: // NEO transfer (incl. self / zero / too much / wrong signer)
 		from := w.anyAccount()
 		to := w.anyAccount()
